@@ -465,7 +465,8 @@ Inductive op :=
 | OpFail (n : nat)               (* the next n shm_open(O_CREAT) fail *)
 | OpM                            (* recorder: next REC_START/REC_END/LOST message *)
 | OpW (w : nat)                  (* writer w: from its gate to the next gate *)
-| OpDrain | OpStop | OpJoin | OpFlush.
+| OpDrain | OpStop | OpJoin | OpFlush
+| OpSettle.                      (* model only: every busy writer runs until it is idle *)
 
 (* will this P_emit ask allocate_shmem_buffer? *)
 Definition will_alloc (c : cfg) (s : st) (t : tid) (r : rec) : bool :=
@@ -586,12 +587,29 @@ Definition exec_w (s : st) (w : nat) : option st :=
   end.
 
 Definition busy (s : st) : bool := negb (forallb idle (ws s)).
-(* run every writer until all are idle (pthread_join lets them finish) *)
+(* writer w runs until it is idle *)
+Fixpoint run_idle (fuel : nat) (s : st) (w : nat) : st :=
+  match fuel with
+  | 0 => s
+  | S k => match nth_error (ws s) w with
+           | Some wr => if idle wr then s else match exec_w s w with Some s' => run_idle k s' w | None => s end
+           | None => s
+           end
+  end.
+(* after stop_all_writers every writer leaves its loop: a busy one after it is done with its tid, an idle
+   one after at most one more round (a kick is pending whenever buf_write_list is not empty) *)
+Definition join_writers (s : st) : st :=
+  fold_left (fun a w => match nth_error (ws a) w with
+                        | Some wr => if idle wr
+                                     then match w_pick a w with Some a' => run_idle 1000 a' w | None => a end
+                                     else run_idle 1000 a w
+                        | None => a
+                        end) (seq 0 (length (ws s))) s.
+(* the writers work until nothing is queued and all are idle *)
 Definition settle (s : st) : st :=
-  iter_opt 1000 (fun s => if busy s then
-                              Some (fold_left (fun a w => match nth_error (ws a) w with
-                                                          | Some wr => if idle wr then a else match exec_w a w with Some a' => a' | None => a end
-                                                          | None => a end) (seq 0 (length (ws s))) s)
+  iter_opt 1000 (fun s => if busy s || negb (is_nil (bwl s)) then
+                              Some (fold_left (fun a w => match exec_w a w with Some a' => a' | None => a end)
+                                              (seq 0 (length (ws s))) s)
                             else None) s.
 
 Definition exec_op (c : cfg) (sd : st * drv) (o : op) : option (st * drv) :=
@@ -610,9 +628,10 @@ Definition exec_op (c : cfg) (sd : st * drv) (o : op) : option (st * drv) :=
   | OpW w => match exec_w s w with Some s' => Some (s', d) | None => None end
   | OpDrain => Some (iter_opt (length (chan s)) m_msg s, d)
   | OpStop => match m_stop s with Some s' => Some (s', d) | None => None end
-  | OpJoin => match m_join (settle s) with Some s' => Some (s', d) | None => None end
+  | OpJoin => match m_join (join_writers s) with Some s' => Some (s', d) | None => None end
   | OpFlush => let s1 := iter_opt (length (shl s)) m_flush1 s in
                Some (iter_opt (length (bwl s1)) m_rem1 s1, d)
+  | OpSettle => Some (settle s, d)
   end.
 
 (* ---- snapshots compared with the two processes after every operation (flat lists of N) *)
@@ -630,11 +649,13 @@ Definition snap_rec (s : st) (nt : nat) : list N :=
 Definition snap (s : st) (nt : nat) : list N :=
   flat_map (fun t => if pdone s t then [999%N] else snap_prod s t) (seq 0 nt) ++ [4242%N] ++ snap_rec s nt.
 
-Fixpoint run_ops (c : cfg) (nt : nat) (sd : st * drv) (ops : list op) : list (list N) * option (st * drv) :=
+Fixpoint run_ops (withsnap : bool) (c : cfg) (nt : nat) (sd : st * drv) (ops : list op)
+  : list (list N) * option (st * drv) :=
   match ops with
   | [] => ([], Some sd)
   | o :: r => match exec_op c sd o with
-              | Some sd' => let '(snaps, fin) := run_ops c nt sd' r in (snap (fst sd') nt :: snaps, fin)
+              | Some sd' => let '(snaps, fin) := run_ops withsnap c nt sd' r in
+                            ((if withsnap then snap (fst sd') nt else []) :: snaps, fin)
               | None => ([], None)
               end
   end.
@@ -656,7 +677,8 @@ Record case := {
   c_lost : N                        (* implementation: shmem_lost_count at the end *)
 }.
 Definition case_cfg (k : case) : cfg := {| maxsize := c_bufsize k - 16 |}.
-Definition case_run (k : case) := run_ops (case_cfg k) (c_nt k) (init (c_nw k), drv0 (c_base k)) (c_ops k).
+Definition case_run (k : case) :=
+  run_ops (negb (is_nil (c_snaps k))) (case_cfg k) (c_nt k) (init (c_nw k), drv0 (c_base k)) (c_ops k).
 
 (* model = implementation?  (snapshots when observed, final files and LOST count always) *)
 Definition case_agrees (k : case) : bool :=
